@@ -4,10 +4,12 @@ import (
 	"errors"
 	"time"
 
+	"github.com/emitter-io/emitter/internal/event"
 	"github.com/emitter-io/emitter/internal/provider/contract"
 	"github.com/emitter-io/emitter/internal/provider/usage"
 	"github.com/emitter-io/emitter/internal/security"
 	"github.com/emitter-io/emitter/internal/security/license"
+	"github.com/emitter-io/emitter/internal/service/cluster"
 	"github.com/emitter-io/emitter/internal/service/keygen"
 	"github.com/emitter-io/emitter/internal/verifrt"
 )
@@ -102,6 +104,24 @@ func VerifC03(v *verifrt.T) {
 	ciph := &c03cipher{key: key, broken: v.Bool("undecryptable")}
 	svc := &Service{contracts: contracts}
 	svc.keygen = keygen.New(ciph, contracts, svc)
+	// the ban list: a real Swarm over a real replicated state that holds a ban for the
+	// presented key string, for another key string, or none
+	banned := false
+	if v.Bool("clustered") {
+		st := event.NewState("")
+		switch v.Choice(3, "ban") {
+		case 1:
+			b := event.Ban("K")
+			st.Add(&b)
+			banned = true
+		case 2:
+			b := event.Ban("K2")
+			st.Add(&b)
+		}
+		sw := new(cluster.Swarm)
+		verifrt.SetUnexported(sw, "state", st)
+		svc.cluster = sw
+	}
 
 	req := c03draw(v, "r", 1)
 	need := v.U8("need")
@@ -118,6 +138,7 @@ func VerifC03(v *verifrt.T) {
 	v.Assume(exp == 0 || at < t0 || at > t1)
 	expired := verifrt.And(exp != 0, at < t0)
 	valid := verifrt.And(verifrt.Not(ciph.broken), verifrt.Not(expired))
+	valid = verifrt.And(valid, !banned)
 	valid = verifrt.And(valid, verifrt.And(key.Contract() == lic.User, key.Signature() == lic.Sign))
 	valid = verifrt.And(valid, key.Master() == 1)
 	valid = verifrt.And(valid, key.Permissions()&need == need)
